@@ -144,7 +144,18 @@ func (r *rng) frange(S, E uint) (uint64, uint64) {
 	a := r.fbits(S, E)
 	b := r.fbits(S, E)
 	mag := uint64(1)<<(S+E) - 1
-	switch r.intn(6) {
+	switch r.intn(8) {
+	case 6, 7:
+		// a bound with an integer part and a fraction (10.5, 1000.25, …) and the other bound one to three binades
+		// further out: draws land in the binade of the nearer bound with a larger integer part
+		bias := uint64(1)<<(E-1) - 1
+		e := bias + 1 + uint64(r.intn(9))
+		sign := uint64(r.intn(2)) << (S + E)
+		a = sign | e<<S | r.u64()&(uint64(1)<<S-1)
+		if r.chance(1, 2) {
+			a = a&^(uint64(1)<<(S-(uint(e-bias)+1))-1) | uint64(1)<<(S-(uint(e-bias)+1)) // fraction exactly .5
+		}
+		b = sign | (e+1+uint64(r.intn(3)))<<S | r.u64()&(uint64(1)<<S-1)
 	case 0:
 		b = a
 	case 1:
